@@ -489,7 +489,7 @@ fn run_c18(tier: &str) -> i32 {
 fn run_c20(tier: &str) -> i32 {
     let (max_wall, _) = registry::caps(tier);
     // reserve a slice of the budget for the crash images
-    let crash_budget = if tier == "quick" { 12.0 } else { 180.0 };
+    let crash_budget = if tier == "quick" { 18.0 } else { 180.0 };
     std::env::set_var("VERIF_MAX_WALL_S", format!("{}", (max_wall - crash_budget).max(10.0)));
     let rc = run_hx("C20", tier);
     std::env::remove_var("VERIF_MAX_WALL_S");
